@@ -233,7 +233,7 @@ func (h *httpHandler) readReqMsg(w http.ResponseWriter, req *http.Request) *dnsm
 		}
 		buf := pool.GetBuf(msgSize)
 		defer pool.ReleaseBuf(buf)
-		_, err := base64.RawURLEncoding.Decode(buf, utils.Str2BytesUnsafe(s))
+		n, err := base64.RawURLEncoding.Decode(buf, utils.Str2BytesUnsafe(s))
 		if err != nil {
 			h.logger.Warn().
 				Object("request", (*httpReqLoggerObj)(req)).
@@ -242,7 +242,7 @@ func (h *httpHandler) readReqMsg(w http.ResponseWriter, req *http.Request) *dnsm
 			w.WriteHeader(http.StatusBadRequest)
 			return nil
 		}
-		reqWireMsg = buf
+		reqWireMsg = buf[:n] // the decoder skips newlines: n may be less than DecodedLen
 
 	case http.MethodPost:
 		// Check Content-Type header
